@@ -15,7 +15,11 @@ import (
 var c14Prefix = "c14"
 
 func c14Run(proto Protocol, variant int, preempt int) {
-	r, addr := vLight(proto, 1, 1440, variant == 5)
+	queue := 1
+	if variant == 1 {
+		queue = 8 // Flush enqueues six items of its own; the handshake, not a full queue, is the subject here
+	}
+	r, addr := vLight(proto, queue, 1440, variant == 5)
 	c := r.AllocateCounter("c", map[string]string{"k": "v"})
 	h := r.AllocateHistogram("h", nil, tally.ValueBuckets{1})
 	b := h.ValueBucket(0, 1)
@@ -37,9 +41,9 @@ func c14Run(proto Protocol, variant int, preempt int) {
 		wg.Add(2)
 		go func() { defer wg.Done(); c.ReportCount(1); c.ReportCount(2) }()
 		go func() { defer wg.Done(); err1 = r.Close(); closes++ }()
-	case 1: // Flush vs Close vs producer
-		wg.Add(3)
-		go func() { defer wg.Done(); c.ReportCount(1) }()
+	case 1: // Flush (which also reports the reporter's internal metrics) vs Close
+		c.ReportCount(1)
+		wg.Add(2)
 		go func() { defer wg.Done(); r.Flush() }()
 		go func() { defer wg.Done(); err1 = r.Close(); closes++ }()
 	case 2: // two Close callers and a producer
